@@ -181,6 +181,7 @@ def main(argv):
     known = load_json(os.path.join(ROOT, 'known_findings.json'), {'findings': [], 'fixed': []})
 
     undecided, violations, known_hits = [], [], []
+    tainted = []   # obligations of this property inside a function that failed a DIFFERENT (not tagged) obligation
     obligations, discharged = {}, {}
     cov_items, cov_norms, trusted, not_covered, samples = [], [], [], [], []
     cmds, smt_ms, fn_ms = [], 0.0, {}
@@ -204,10 +205,19 @@ def main(argv):
         for b in base:
             if b not in mine:
                 undecided.append('baseline obligation no longer generated: ' + b)
+        # a function with ANY failed obligation was verified under assumptions Verus could not discharge (it continues past a
+        # failed precondition/assertion by assuming it): its remaining obligations are not proved, only not-refuted
+        failed_fns = {}
+        for ob, diags in out['failed'].items():
+            fnk = g.obligations.get(ob, {}).get('fn')
+            if fnk:
+                failed_fns.setdefault(fnk, []).append((ob, diags))
         for k, v in mine.items():
             obligations[k] = v
             if k in out['failed']:
                 pass
+            elif v['fn'] in failed_fns:
+                tainted.append((uname, k, v['fn'], failed_fns[v['fn']], g))
             elif out['status'] in ('ok', 'failed'):
                 discharged[k] = v
         if out['status'] in ('ok', 'failed'):
@@ -256,17 +266,37 @@ def main(argv):
         else:
             real.append((uname, ob, diags, g))
 
+    # tainted obligations: undecided unless the witness finder shows the property really fails on the real code
+    if tainted and not real and not undecided:
+        w = None
+        if cfg.get('witness'):
+            depth = 5 if cfg.get('witness') == 'alloc' else 4
+            w = find_witness(cfg['witness'], prop, repo, depth + (1 if tier == 'thorough' else 0), seed)
+        if w and w.get('found') and w.get('property') in (prop, 'panic'):
+            seen = set()
+            for (uname, k, fnk, fails, g) in tainted:
+                for (ob, diags) in fails:
+                    if ob in seen:
+                        continue
+                    seen.add(ob)
+                    obligations[ob] = dict(g.obligations[ob], props=g.obligations[ob]['props'] + [prop])
+                    real.append((uname, ob, diags, g))
+            pre_witness = w
+        else:
+            fns = sorted({t[2] for t in tainted})
+            undecided.append('obligations of %s in %s are not proved: the function fails obligation(s) %s tagged for other properties, and no failing input for %s was found%s'
+                             % (prop, fns, sorted({ob for t in tainted for (ob, _) in t[3]}), prop, '' if cfg.get('witness') else ' (no witness harness for this property)'))
     kani_fail = [b for b in bounded if b['status'] == 'failed']
     exit_code = 0
     lines = []
     for (hit, ob) in known_hits:
         lines.append('KNOWN-FINDING: property=%s %s (obligation %s)' % (prop, hit.get('what', ''), ob))
-    witness = None
+    witness = locals().get('pre_witness')
     if real and not undecided:
         depth = 6 if tier == 'thorough' else 5
         if cfg.get('witness') in ('storage', 'misc'):
             depth = 5 if tier == 'thorough' else 4
-        if cfg.get('witness'):
+        if cfg.get('witness') and witness is None:
             witness = find_witness(cfg['witness'], prop, repo, depth, seed)
         for (uname, ob, diags, g) in real:
             rp = os.path.join(EVID, 'replay', '%s-%s.json' % (prop, re.sub(r'[^A-Za-z0-9_.]+', '_', ob)))
